@@ -7,7 +7,10 @@ subset of them chosen by a seeded tape.
 
 Where the statement of C17 does not claim invariance no *claimed* point is placed; a few of those
 places are kept as *probe* categories (reported, never judged):
-  - inside a component's braces `{...}` (quantity syntax is not "words")           probe: brace
+  - inside a component's braces `{...}` after a WORD (text values, units)              probe: brace
+    (between the NUMBER tokens of a quantity and directly after `{` the edit qty_comment is judged: the
+    parser's own comments say "remove spaces and comments in between other tokens" (quantity.rs) and the
+    scaling lock is preceded by ws_comments; the unchanged code is invariant there)
   - inside the `>>` marker                                                               (excluded)
   - inside the YAML front matter, before it, and on its fence lines for comments         (excluded)
   - directly after a backslash (the next character is escaped, a comment cannot start)   (excluded)
@@ -161,6 +164,8 @@ class Points:
         self.after_word = {}    # category -> [offset]: directly after a word that is followed by a blank
         self.at_blank = {}      # category -> [offset]: directly after a blank between words (spaced variant)
         self.line_start = []    # offsets where a whole extra line may be inserted (between blocks)
+        self.qty_num = []       # (after-number offset, after-blank offset): between the number tokens of a quantity
+        self.qty_lead = []      # directly after the `{` of a component
         self.excluded = {}      # reason -> count of candidate places not used
 
     def add(self, d, cat, off):
@@ -220,9 +225,14 @@ def _scan_step(P, toks, ext):
                         P.add(P.after_word, "comp_name", a[3])
                         P.add(P.at_blank, "comp_name", b[3])
                 inner = toks[stop + 1:close]
+                P.qty_lead.append(toks[stop][3])
                 for a, b in zip(inner, inner[1:]):
                     if a[0] in WORDLIKE and b[0] == "ws":
                         P.add(P.after_word, "probe_brace", a[3])
+                for a, b, c in zip(inner, inner[1:], inner[2:]):
+                    # the number goes on after the blank: mixed number `1 1/2`, fraction `1 / 2`, range `2 - 5`
+                    if a[0] in ("int", "slash", "minus") and b[0] == "ws" and c[0] in ("int", "slash", "minus"):
+                        P.qty_num.append((a[3], b[3]))
                 P.excl("inside_braces", max(0, len(inner) - 1))
                 end = close + 1
         if end is None:
@@ -411,9 +421,49 @@ def name_comment_spaced(text, P, rng, mode):
     return mid_comment_spaced(text, P, rng, mode, cats=NAME_SPACED)
 
 
-EDITS = {"trail_comment": trail_comment, "trail_space": trail_space, "mid_comment": mid_comment,
+TRAIL_MULTI = [" [- day one -] -- takes long", " [- a -] [- b -]", " [- a -]  ", "[- a -][- b -]", " [- a -]\t-- c",
+               " [- a -] [- b -] -- c", " [- a -]"]
+
+
+def trail_multi(text, P, rng, mode):
+    """a line that ends with a block comment, plus a trailing comment / blanks / a second block comment"""
+    pts = _choose(rng, [o for o, _ in P.line_end], mode)
+    return _apply(text, [(o, rng.choice(TRAIL_MULTI)) for o in pts]), len(pts)
+
+
+def mid_comment_double(text, P, rng, mode):
+    """two adjacent block comments after a word (the unspaced edit next to an existing comment)"""
+    cands = [o for c in CLAIMED_AFTER for o in P.after_word.get(c, [])]
+    pts = _choose(rng, cands, mode)
+    return _apply(text, [(o, "[-" + rng.choice(BLOCK_COMMENTS) + "-][-" + rng.choice(BLOCK_COMMENTS) + "-]") for o in pts]), len(pts)
+
+
+def qty_comment(text, P, rng, mode):
+    """block comments between the number tokens of a quantity (`1 [- heaped -] 1/2`, `1 [-c-]/ 2`, `2[-c-] - 5`) and
+    directly after the `{` (before the value or the scaling lock), one or two of them, with or without blanks"""
+    cands = [("n", p) for p in P.qty_num] + [("l", o) for o in P.qty_lead]
+    if not cands:
+        return text, 0
+    cands.sort(key=lambda t: str(t))
+    if mode == "all":
+        chosen = cands
+    else:
+        chosen = rng.sample(cands, 1 if mode == "one" else rng.randint(1, min(4, len(cands))))
+    ins = []
+    for kind, p in chosen:
+        c = "[-" + rng.choice([" heaped ", "c", " a -][- b ", ""]) + "-]"
+        if kind == "n":
+            after_num, after_blank = p
+            ins.append((after_num, c) if rng.random() < 0.5 else (after_blank, c + " "))
+        else:
+            ins.append((p, rng.choice([c, " " + c + " ", c + " " + "[- b -]"])))
+    return _apply(text, ins), len(ins)
+
+
+EDITS = {"trail_comment": trail_comment, "trail_space": trail_space, "trail_multi": trail_multi,
+         "mid_comment": mid_comment, "mid_comment_double": mid_comment_double,
          "mid_comment_spaced": mid_comment_spaced, "name_comment_spaced": name_comment_spaced,
-         "extra_lines": extra_lines}
+         "qty_comment": qty_comment, "extra_lines": extra_lines}
 PROBES = {"probe_brace": ("after", "probe_brace"), "probe_value_spaced": ("blank", "probe_value_spaced")}
 
 
